@@ -335,8 +335,12 @@ func genPipeLife(fset *token.FileSet, pf *ast.File, strs func(string, []string),
 	for _, fn := range []string{"Do", "DoMulti"} {
 		fd := findFunc(pf, "pipe", fn)
 		body := src(fset, fd.Body)
-		boolv("stateLoadAfterIncr_"+fn, strings.Contains(body, "waits := p.incrWaits() // if this is 1, and the background worker is not started, no need to queue state := atomic.LoadInt32(&p.state) if state == 1 { goto queue } if state == 0 { if waits != 1 { goto queue }") ||
-			strings.Contains(body, "waits := p.incrWaits() state := atomic.LoadInt32(&p.state) if state == 1 { goto queue } if state == 0 { if waits != 1 { goto queue }"))
+		// `waits := p.incrWaits()` is directly followed by the state load; the only statement tolerated in between
+		// is the verif scheduling point `verifYieldAfterIncrWaits(waits)` (an empty function without the build tag)
+		after := "state := atomic.LoadInt32(&p.state) if state == 1 { goto queue } if state == 0 { if waits != 1 { goto queue }"
+		boolv("stateLoadAfterIncr_"+fn, strings.Contains(body, "waits := p.incrWaits() "+after) ||
+			strings.Contains(body, "waits := p.incrWaits() verifYieldAfterIncrWaits(waits) "+after))
+		boolv("yieldPoint_"+fn, strings.Contains(body, "waits := p.incrWaits() verifYieldAfterIncrWaits(waits) "+after))
 		// the tail after the sync/reject branch
 		tail := ""
 		ast.Inspect(fd.Body, func(n ast.Node) bool {
@@ -372,6 +376,13 @@ func genPipeLife(fset *token.FileSet, pf *ast.File, strs func(string, []string),
 			return err
 		}
 		strs("admissionOrder_"+fn, ord)
+	}
+	// the scheduling point is an empty function in normal builds
+	if _, yf, err := parseFile("verif_yield_off.go"); err == nil {
+		fd := findFunc(yf, "", "verifYieldAfterIncrWaits")
+		boolv("yieldOffIsEmpty", fd != nil && fd.Body != nil && len(fd.Body.List) == 0)
+	} else {
+		boolv("yieldOffIsEmpty", !strings.Contains(src(fset, pf), "verifYieldAfterIncrWaits("))
 	}
 	return nil
 }
